@@ -27,15 +27,51 @@ package lock
 //@   requires[caller_ok] c != nil && c.ready != nil && c.done != nil && c.ready != c.done
 //@   requires[caller_open] !closed(c.ready) && !closed(c.done)
 //@   rely[caller_is_private] forall i in 0..len(q.callers): q.callers[i] != c && q.callers[i].ready != c.ready && q.callers[i].done != c.done && q.callers[i].ready != c.done && q.callers[i].done != c.ready
-//@   modifies *
+//@   modifies q.callers, arrays(q.callers), chans()
 //@   csensures[appended_at_tail] len(q.callers) == old(len(q.callers)) + 1 && q.callers[len(q.callers)-1] == c && forall i in 0..old(len(q.callers)): q.callers[i] == old(q.callers[i])
 //@   csensures[woken_only_if_first] old(len(q.callers)) > 0 ==> !closed(c.ready)
 
 //@ func (*queue).remove(q, id) (found)
 //@   property C14
 //@   nopanic
-//@   modifies *
+//@   modifies q.callers, arrays(q.callers), chans()
 //@   loop 0 invariant[scanned] forall k in 0..rangeindex+1: q.callers[k].id != id
 //@   csensures[absent_id_changes_nothing] !found ==> len(q.callers) == old(len(q.callers)) && forall i in 0..len(q.callers): q.callers[i] == old(q.callers[i])
 //@   csensures[absent_means_absent] !found ==> forall i in 0..len(q.callers): q.callers[i].id != id
 //@   csensures[removes_one_keeps_order] found ==> len(q.callers) == old(len(q.callers)) - 1 && exists k in 0..old(len(q.callers)): old(q.callers[k].id) == id && closed(old(q.callers[k]).done) && (forall i in 0..k: q.callers[i] == old(q.callers[i])) && (forall i in k..len(q.callers): q.callers[i] == old(q.callers[i+1]))
+
+// Interface-level contract of the business lock as used by the gateway: the ghost variables
+// record the arguments of the call (lock_ttl in nanoseconds; lock_ctx_cancellable == 0 iff the
+// wait context can never be cancelled).
+//@ trusted func (Lock).Lock(l, ctx, key, ttl) (id, err)
+//@   modifies ghost("lock_calls"), ghost("lock_ttl"), ghost("lock_ctx_cancellable")
+//@   ensures ghost("lock_calls") == old(ghost("lock_calls")) + 1 && ghost("lock_ttl") == ttl && ghost("lock_ctx_cancellable") == U_cancellable(ctx)
+
+// Lock: enqueue exactly once; a granted caller is NOT dequeued by Lock itself (only by Unlock or
+// the TTL watchdog); a caller whose wait is abandoned (ctx done) dequeues exactly its own id.
+//@ func (*lock).Lock(l, ctx, key, ttl) (lockID, err)
+//@   property C14
+//@   modifies *
+//@   ensures[enqueued_once] calls("queue.enqueue") == old(calls("queue.enqueue")) + 1
+//@   ensures[granted_stays_queued] err == nil ==> calls("queue.remove") == old(calls("queue.remove"))
+//@   ensures[granted_id_is_own] err == nil ==> lockID == lastret("NewString")
+//@   ensures[abandoned_wait_dequeues_own_id] err != nil ==> calls("queue.remove") == old(calls("queue.remove")) + 1 && calledwith("queue.remove", 1, lastret("NewString"))
+
+// The TTL watchdog started for a granted caller: it removes only its own caller's id, only when
+// its timer (armed with the caller's ttl) fires, and it does so whenever the timer fires.
+//@ func (*lock).Lock$1()
+//@   property C14
+//@   modifies *
+//@   ensures[timer_uses_ttl] ghost("timer_d") == ttl
+//@   ensures[removes_own_id] calls("queue.remove") > old(calls("queue.remove")) ==> calledwith("queue.remove", 1, lockID)
+//@   ensures[removes_only_on_expiry] calls("queue.remove") > old(calls("queue.remove")) ==> ghost("select_chan") == ghost("timer_chan")
+//@   ensures[expiry_releases] ghost("select_chan") == ghost("timer_chan") ==> calls("queue.remove") == old(calls("queue.remove")) + 1
+//@   ensures[dismissed_otherwise] ghost("select_chan") != ghost("timer_chan") ==> ghost("select_chan") == refid(c.done) && calls("queue.remove") == old(calls("queue.remove"))
+
+// Unlock: removes exactly the given id from the key's queue; an unknown key or id is an error
+// (a stale or foreign lock id never releases someone else's lock: see remove's contract).
+//@ func (*lock).Unlock(l, key, lockID) (err)
+//@   property C14
+//@   modifies *
+//@   ensures[removes_given_id] err == nil ==> calls("queue.remove") == old(calls("queue.remove")) + 1 && calledwith("queue.remove", 1, lockID) && lastret("queue.remove")
+//@   ensures[not_found_is_error] calls("queue.remove") > old(calls("queue.remove")) && !lastret("queue.remove") ==> err != nil
